@@ -17,3 +17,4 @@ CFG = {
     'assumptions': ['the deterministic gosum function defines the expected go.sum lines', 'porcupine v1.3.0 decides linearizability of the recorded histories correctly'],
 }
 CFG['level_text'] += ' The private-module pattern list is one of six equivalent lists (malformed and empty elements, character classes, a trailing slash), each confirmed by the harness\'s own reading of the documented matching; module versions include ones ending in letters of "/go.mod".'
+CFG['level_text'] += ' In half of the runs store and transport hand the very same bytes to every client asking for the same thing; afterwards no handed-out buffer may have changed.'
